@@ -13,7 +13,10 @@ their connection tables (`network/router.go`).
 * the listener's callback (`Router.Start` 215-258): `receiveServerIdentity`, `registerConnection(dialer, c)`,
   receive goroutine — action `accept`.
 * `handleConn` 442-515: `Receive`, `packet.ServerIdentity = remote` (the identity the connection was
-  registered under), `Dispatch` — action `recv`.  Which envelope of a connection comes first is not
+  registered under), `Dispatch` — action `recv`.  A frame that arrives complete but cannot be decoded
+  (`Receive` answers an error that is none of timeout / closed / EOF / unknown) is logged and the loop
+  reads on — actions `junk` (the peer writes such a frame) and `recvJunk`.
+  Which envelope of a connection comes first is not
   modelled here (any envelope in flight on a registered connection may be received next: more
   schedules than a FIFO connection has, sound for the statements made; the order on one connection is
   C03's and `C05.Conn`'s).
@@ -50,12 +53,15 @@ structure St where
   thr : List Th := []
   dispatched : List (Nat × Nat × Nat) := []     -- (server, identity attached to the envelope, v) in dispatch order
   sent : List (Nat × Nat × Nat) := []           -- ghost: (src, dst, v) of every `Send` call
+  junk : List Flight := []                      -- well-formed frames the destination cannot decode, written and not yet read (`v` unused)
 
 inductive Act where
   | send (src dst v : Nat)     -- a `Send` call starts
   | thread (i : Nat)           -- the i-th `Send` call takes its next step
   | accept (j : Nat)           -- the listener callback of the j-th pending dial runs
   | recv (j : Nat)             -- the destination's receive goroutine takes the j-th envelope in flight
+  | junk (src dst : Nat)       -- `src` writes, on the connection it uses for `dst`, a frame `dst` cannot decode
+  | recvJunk (j : Nat)         -- the destination's receive goroutine reads the j-th such frame
   deriving Repr
 
 def addConn (tb : Nat → Nat → List Nat) (s p k : Nat) : Nat → Nat → List Nat :=
@@ -94,6 +100,20 @@ def step (s : St) : Act → Option St
           if f.k ∈ s.table f.dst f.src then
             some { s with wire := s.wire.eraseIdx j, dispatched := s.dispatched ++ [(f.dst, f.src, f.v)] }
           else none      -- the destination has not launched the receive goroutine of this connection yet
+      | none => none
+  -- a complete frame whose body `Unmarshal` refuses (type not registered at the destination, a point of
+  -- another group, …): it travels on the first connection of the table like every `Send`
+  | .junk src dst =>
+      if src = dst then none
+      else match (s.table src dst).head? with
+        | some k => some { s with junk := s.junk ++ [⟨k, src, dst, 0⟩] }
+        | none => none
+  -- `handleConn` 442-515: `Receive` returns an error that wraps none of `ErrTimeout`, `ErrClosed`, `ErrEOF`,
+  -- `ErrUnknown` — "Temporary error, continue" (498-500): nothing is dispatched, the connection stays in
+  -- both tables, the loop reads on
+  | .recvJunk j =>
+      match s.junk[j]? with
+      | some f => if f.k ∈ s.table f.dst f.src then some { s with junk := s.junk.eraseIdx j } else none
       | none => none
 
 def run (s : St) : List Act → St
